@@ -2,7 +2,7 @@ use std::{
     collections::{HashMap, HashSet},
     error::Error,
     path::{Path, PathBuf},
-    sync::Arc,
+    sync::{Arc, Mutex},
     thread,
 };
 
@@ -63,6 +63,10 @@ pub(crate) struct Server {
 
     /// Aggregated formatting settings
     formatting_settings: FormattingSettings,
+
+    /// The latest version of each document. Results of background analyses of older versions
+    /// are discarded. The lock also serializes the publishing of diagnostics.
+    latest_versions: Arc<Mutex<HashMap<Uri, i32>>>,
 }
 
 impl Server {
@@ -108,6 +112,7 @@ impl Server {
             uri,
             version,
             document_state.clone(),
+            self.latest_versions.clone(),
         )?;
         eprintln!("analyze: finished");
         Ok(())
@@ -130,6 +135,7 @@ impl Server {
         uri: Uri,
         version: i32,
         document_state: DocumentState,
+        latest_versions: Arc<Mutex<HashMap<Uri, i32>>>,
     ) -> anyhow::Result<()> {
         let mut grammar_config = Self::obtain_grammar_config_from_string(input, file_name)?;
         let ignored_unreachable_non_terminals = grammar_config
@@ -154,8 +160,17 @@ impl Server {
                     eprintln!("check_grammar: errors from calculate_lookahead_dfas");
                     #[cfg(parol_verif)]
                     crate::verif::gate(&verif_connection, uri.as_str(), version, crate::verif::Phase::Publish);
-                    let _ =
-                        Self::notify_analysis_error(err, connection, &uri, version, document_state);
+                    // Only publish if the document has not been changed in the meantime
+                    let latest = latest_versions.lock().unwrap();
+                    if latest.get(&uri) == Some(&version) {
+                        let _ = Self::notify_analysis_error(
+                            err,
+                            connection,
+                            &uri,
+                            version,
+                            document_state,
+                        );
+                    }
                 }
                 #[cfg(parol_verif)]
                 crate::verif::done(&verif_connection, uri.as_str(), version);
@@ -168,6 +183,13 @@ impl Server {
                 let result = calculate_lalr1_parse_table(&grammar_config);
                 #[cfg(parol_verif)]
                 crate::verif::gate(&verif_connection, uri.as_str(), version, crate::verif::Phase::Publish);
+                // Only publish if the document has not been changed in the meantime
+                let latest = latest_versions.lock().unwrap();
+                if latest.get(&uri) != Some(&version) {
+                    #[cfg(parol_verif)]
+                    crate::verif::done(&verif_connection, uri.as_str(), version);
+                    return;
+                }
                 match result {
                     Ok((_, resolved_conflicts)) => {
                         let _ = Self::notify_resolved_conflicts(
@@ -208,6 +230,14 @@ impl Server {
                 ..Default::default()
             },
         );
+        // Keep the lock until the synchronous result has been published. A background analysis
+        // can publish its result only afterwards and only if its version is still the latest.
+        let latest_versions = self.latest_versions.clone();
+        let mut latest = latest_versions.lock().unwrap();
+        latest.insert(
+            params.text_document.uri.clone(),
+            params.text_document.version,
+        );
         match self.analyze(
             params.text_document.uri.clone(),
             params.text_document.version,
@@ -247,6 +277,14 @@ impl Server {
     ) -> Result<(), Box<dyn Error>> {
         let params: DidChangeTextDocumentParams = n.extract(DidChangeTextDocument::METHOD)?;
         self.apply_changes(&params.text_document.uri, &params.content_changes);
+        // Keep the lock until the synchronous result has been published. A background analysis
+        // can publish its result only afterwards and only if its version is still the latest.
+        let latest_versions = self.latest_versions.clone();
+        let mut latest = latest_versions.lock().unwrap();
+        latest.insert(
+            params.text_document.uri.clone(),
+            params.text_document.version,
+        );
         match self.analyze(
             params.text_document.uri.clone(),
             params.text_document.version,
@@ -462,6 +500,7 @@ impl Server {
     }
 
     fn cleanup(&mut self, uri: &Uri) {
+        self.latest_versions.lock().unwrap().remove(uri);
         self.documents.remove(uri);
     }
 
